@@ -60,6 +60,32 @@ func (x *Exec) applyFn2(st *State, fn Val, a, b Val) (Term, []Term, bool) {
 	return v.T, scratch.pc[base:], true
 }
 
+// applyFn1: like applyFn2 for a one-argument function value.
+func (x *Exec) applyFn1(st *State, fn Val, a Val) (Term, []Term, bool) {
+	scratch := st.clone()
+	base := len(scratch.pc)
+	var v Val
+	var ok bool
+	switch {
+	case fn.Clo != nil:
+		v, ok = x.execAsSpec(scratch, fn.Clo.Fn, []Val{a}, fn.Clo)
+	case fn.SFn != nil:
+		if x.L.isRepoFunc(fn.SFn) && len(fn.SFn.Blocks) > 0 {
+			v, ok = x.execAsSpec(scratch, fn.SFn, []Val{a}, nil)
+		}
+		if !ok {
+			v = x.pureApp(scratch, fn.SFn, []Val{a})
+			ok = true
+		}
+	default:
+		v, ok = x.applyUF(scratch, fn, []Val{a})
+	}
+	if !ok {
+		return Term{}, nil, false
+	}
+	return v.T, scratch.pc[base:], true
+}
+
 func forall2(i, j string, guard Term, facts []Term, body Term) Term {
 	ante := And(append([]Term{guard}, facts...)...)
 	return Term{fmt.Sprintf("(forall ((%s Int) (%s Int)) (=> %s %s))", i, j, ante.S, body.S), "Bool"}
@@ -267,6 +293,40 @@ func init() {
 				used(x, "slices.CompactFunc after slices.SortFunc with the same total-preorder comparison: the result is strictly sorted")
 			}
 		}
+		return r, true
+	}
+	libTable["slices.DeleteFunc"] = func(x *Exec, fr *Frame, st *State, cc *ssa.CallCommon, a []Val) (Val, bool) {
+		T := cc.Args[0].Type()
+		x.te.SortOf(T)
+		elemT := T.Underlying().(*types.Slice).Elem()
+		s := a[0]
+		n := sliceLen(s.T)
+		old := sliceArr(s.T)
+		del := func(e Term) (Term, []Term, bool) { return x.applyFn1(st, a[1], Val{T: e, Typ: elemT}) }
+		if _, _, ok := del(Select(old, IntLit(0))); !ok {
+			return Val{}, false
+		}
+		r := x.freshVal(st, "kept", T)
+		rn := sliceLen(r.T)
+		ra := sliceArr(r.T)
+		fn := x.d.Fresh("kidx", "Int").S + "_f"
+		x.d.DeclareFun(fn, fmt.Sprintf("(declare-fun %s (Int) Int)", fn))
+		f := func(i string) Term { return Term{fmt.Sprintf("(%s %s)", fn, i), "Int"} }
+		st.assume(And(Le(IntLit(0), rn), Le(rn, n)))
+		// what is kept: an order-preserving selection of elements the function did not reject
+		di, f1, _ := del(Select(ra, Term{"i_c", "Int"}))
+		st.assume(forall1p("i_c", inRange("i_c", rn), And(append([]Term{inRange(f("i_c").S, n), Eq(Select(ra, Term{"i_c", "Int"}), Select(old, f("i_c")))}, append(f1, Not(di))...)...), Select(ra, Term{"i_c", "Int"})))
+		st.assume(forall2("i_c", "j_c", And(Le(IntLit(0), Term{"i_c", "Int"}), Lt(Term{"i_c", "Int"}, Term{"j_c", "Int"}), Lt(Term{"j_c", "Int"}, rn)), nil, Lt(f("i_c"), f("j_c"))))
+		// nothing that the function accepts is dropped
+		x.memFacts(st, ra, rn)
+		x.memFacts(st, old, n)
+		es := arrayElemSort(ra.Sort)
+		vm := Term{"v_m", es}
+		dv, f2, _ := del(vm)
+		st.assume(Term{fmt.Sprintf("(forall ((v_m %s)) (! (=> %s %s) :pattern (%s)))", es, x.memTerm(old, n, vm).S,
+			And(append(f2, Implies(Not(dv), x.memTerm(ra, rn, vm)))...).S, x.memTerm(old, n, vm).S), "Bool"})
+		st.assume(Term{fmt.Sprintf("(forall ((v_m %s)) (! (=> %s %s) :pattern (%s)))", es, x.memTerm(ra, rn, vm).S, x.memTerm(old, n, vm).S, x.memTerm(ra, rn, vm).S), "Bool"})
+		used(x, "slices.DeleteFunc (keeps, in order, exactly the elements the function does not reject)")
 		return r, true
 	}
 	libTable["slices.Concat"] = func(x *Exec, fr *Frame, st *State, cc *ssa.CallCommon, a []Val) (Val, bool) {
